@@ -111,6 +111,9 @@ def run(repo="/repo", verbose=True):
             detail = "error=%s first difference at %d: engine=%s cpython=%s ghost_failures=%s" % (
                 err, i, got[i:i + 1], want[i:i + 1], eng.concrete_failed[:3])
         results.append({"spec": spec, "actions": len(want), "agree": ok, "detail": detail,
+                        "ghost_failures": [list(x) for x in eng.concrete_failed[:3]],
+                        "stream_differs": (err is not None) or (got != want[:len(got)]) or
+                                          (not eng.concrete_failed and got != want),
                         "time_s": round(time.time() - t0, 2)})
         if verbose:
             print("%-6s %-60s actions=%-4d %.1fs %s" % ("agree" if ok else "DIFFER", spec, len(want),
